@@ -195,7 +195,7 @@ func acceptWord(err error) string {
 }
 
 func runC09(c *wk.Ctx) {
-	c.Meta("rule", "(a) generated scopes using every feature the meta-schema has a table entry for (all scalar kinds with bounds / units / patterns, enums with display data, lists, maps, map-based and struct-mapped objects with defaults, presence rules, disabled properties, one-of inlined/not, references, nested scopes, recursion) built through the constructors; d0 = SelfSerialize; for each leg (direct, CBOR encode/decode, YAML marshal/unmarshal): R = UnserializeScope(leg(d0)) + ApplySelf; SelfSerialize(R) must equal d0; R must accept / reject / (map-based) unserialize generated inputs (valid, perturbed, property dropped, CBOR images) exactly as the original. (b) one schema per public constructor the generator does not cover (typed list/map/object/scope/enum, enum-keyed maps, nil display values, custom units, namespaced refs, unenforced IDs, int one-of), each as the only property of a root object. (c) whole plugin schemas (1..3 steps, several outputs, signal handlers and emitters with their own data scopes): the description from CallableSchema.SelfSerialize directly and through UnserializeSchema, and through a real ATP session (RunATPServer <-> Client.ReadSchema over in-memory pipes); step inputs, every output and every signal data schema must behave like the original. distinct = hash(schema); non-trivial = depth >= 2")
+	c.Meta("rule", "(a) generated scopes using every feature the meta-schema has a table entry for (all scalar kinds with bounds / units / patterns, enums with display data, lists, maps, map-based and struct-mapped objects with defaults, presence rules, disabled properties, one-of inlined/not, references, nested scopes, recursion) built through the constructors; d0 = SelfSerialize; for each leg (direct, CBOR encode/decode, YAML marshal/unmarshal): R = UnserializeScope(leg(d0)) + ApplySelf; SelfSerialize(R) must equal d0; R must accept / reject / (map-based) unserialize generated inputs (valid, perturbed, property dropped, CBOR images) exactly as the original. (b) one schema per public constructor the generator does not cover (typed list/map/object/scope/enum, enum-keyed maps, nil display values, custom units, namespaced refs, unenforced IDs, int one-of), each as the only property of a root object. (c) whole plugin schemas (1..3 steps, several outputs, signal handlers and emitters with their own data scopes): the description from CallableSchema.SelfSerialize directly and through UnserializeSchema, and through a real ATP session (RunATPServer <-> Client.ReadSchema over in-memory pipes); step inputs, every output and every signal data schema must behave like the original. distinct = hash(schema); non-trivial = depth >= 2 (c) also: the same steps in a plain NewSchema whose keys differ from the step IDs, one step under two keys - described, rebuilt, compared key by key.")
 	c.Meta("assumptions", []string{"rebuilding a scope means UnserializeScope followed by ApplySelf (UnserializeSchema links by itself)",
 		"struct-mapped objects are rebuilt as map-based ones: acceptance is compared, values only for map-based schemas"})
 	c.Floor("scopes_described", 300)
